@@ -190,6 +190,10 @@ def gen(seed, thorough=False):
                          'pos': rng.randint(0, 60), 'dt': rng.choice([0.005, 2.0, 45.0]),
                          'after_close': rng.random() < 0.4})
     knobs = {'pipe_capacity': rng.choice([16, 64, 512, 4096, 65536])}
+    if 'j' not in opt and seed % 3 == 1:
+        # resumed layers are relayed by the worker thread itself: one of its writes to the
+        # parent's stdout fails (EAGAIN) - the child's report still counts
+        knobs['worker_write_error'] = 1 + seed % 7
     if big >= 400:
         # (megabytes through a 16-byte pipe cost millions of scheduler steps: keep it bounded)
         knobs['pipe_capacity'] = max(knobs['pipe_capacity'], 4096)
